@@ -7,6 +7,9 @@ ids = [p["id"] for p in props]
 
 # id -> (engine, technique, level text, level note, design ref)
 CLAIMED = {
+ "C14": ("E-TWIN", "proptest generation of (history, cut point, continuation); twin execution in lock-step with per-call comparison; poisoning allocator",
+         "exploration: deflateCopy/inflateCopy twins (original, copy, never-copied control; generated interleaving, one twin ended early) and reset twins (deflateReset, inflateReset, inflateReset2, Deflate::reset, Inflate::reset vs fresh init with the current parameters) must agree per call on status, bytes consumed/produced, totals, adler, data_type and output bytes",
+         "inflateReset with windowBits 0 is compared through inflateReset2 only (like zlib, the window taken from the first header becomes the stream's parameter); deflateResetKeep is not claimed equal to a fresh init (it keeps the window by contract)", "DESIGN.md 6 (C14)"),
  "C13": ("E-DICT", "proptest generation of (dictionary, data, config, flow, chunking, get-dictionary points); model strings + bitwise Adler-32 as oracle",
          "exploration: zlib/raw/raw-mid-stream/gzip-refusal flows through libz_rs_sys and the Rust wrappers: FDICT/DICTID, NEED_DICT id, rejection of a dictionary with another Adler-32, acceptance of a different dictionary with the same Adler-32, round trip, inflateGetDictionary = last min(n, 32768) bytes exactly, deflateGetDictionary = suffix of dictionary + consumed input with the documented length slack",
          "deflateGetDictionary length may be up to 262 bytes short of the window after a slide and restarts after a completed FULL flush (zlib forgets the history there); content is compared exactly", "DESIGN.md 6 (C13)"),
